@@ -918,7 +918,10 @@ impl<Ty: EdgeType, Null: Nullable, Ix: IndexType> Iterator for Neighbors<'_, Ty,
     type Item = NodeIndex<Ix>;
 
     fn next(&mut self) -> Option<Self::Item> {
-        self.0.next().map(|(_, b, _)| b)
+        // An edge is reported as (source, target, weight): the neighbor is
+        // the source when walking the edges into a node.
+        let incoming = self.0.iter_direction == NeighborIterDirection::Rows;
+        self.0.next().map(|(a, b, _)| if incoming { a } else { b })
     }
     fn size_hint(&self) -> (usize, Option<usize>) {
         self.0.size_hint()
@@ -993,12 +996,7 @@ impl<'a, Ty: EdgeType, Null: Nullable, Ix: IndexType> Iterator for Edges<'a, Ty,
 
             let p = to_linearized_matrix_position::<Ty>(row, column, self.node_capacity);
             if let Some(e) = self.node_adjacencies[p].as_ref() {
-                let (a, b) = match self.iter_direction {
-                    Rows => (column, row),
-                    Columns => (row, column),
-                };
-
-                return Some((NodeIndex::new(a), NodeIndex::new(b), e));
+                return Some((NodeIndex::new(row), NodeIndex::new(column), e));
             }
         }
     }
